@@ -2,14 +2,29 @@
 import os, re, json, shutil, subprocess, sys
 from . import extract
 
-HARNESS = os.path.join(extract.CORPUS, "harness")
+HARNESS_TEMPLATE = os.path.join(extract.CORPUS, "harness")
 GRAMMARS = os.path.join(extract.CORPUS, "grammars")
+
+
+def _harness_copy():
+    """the harness crate path-depends on the repository under analysis: materialise a copy under the cache directory with
+    the dependency pointing at extract.REPO (the committed template names /repo) and /repo's own Cargo.lock"""
+    dst = os.path.join(extract.CACHE, "harness")
+    os.makedirs(os.path.join(dst, "src"), exist_ok=True)
+    toml = open(os.path.join(HARNESS_TEMPLATE, "Cargo.toml")).read().replace('path = "/repo"', 'path = "%s"' % extract.REPO)
+    for rel, text in (("Cargo.toml", toml), ("build.rs", open(os.path.join(HARNESS_TEMPLATE, "build.rs")).read()),
+                      ("src/lib.rs", open(os.path.join(HARNESS_TEMPLATE, "src", "lib.rs")).read())):
+        p = os.path.join(dst, rel)
+        if not os.path.exists(p) or open(p).read() != text:
+            open(p, "w").write(text)
+    shutil.copyfile(os.path.join(extract.REPO, "Cargo.lock"), os.path.join(dst, "Cargo.lock"))
+    return dst
 
 
 def build(facts_dir, tier="quick", grammars_dir=None, extra=None):
     """returns report dict: grammars -> status, typecheck failures with first error"""
     gdir = grammars_dir or GRAMMARS
-    shutil.copyfile(os.path.join(extract.REPO, "Cargo.lock"), os.path.join(HARNESS, "Cargo.lock"))
+    HARNESS = _harness_copy()
     skip = []
     tc_fail = {}
     rep_path = os.path.join(facts_dir, "build_report.json")
